@@ -322,6 +322,27 @@ class TModel(SModel):
         return r
 
 
+def thomas_evaluates(lib):
+    """None if the solver body evaluates in the lane-generic model, else the exception"""
+    b = lib.body(THOMAS)
+    if b is None:
+        return Unsupported("solver not found")
+    m = TModel()
+    it = Interp(lib, m)
+    k = m.new_arr2(m.n, 'k')
+    arrs = []
+    for name in ('up', 'mid', 'low'):
+        a = m.new_arr1(m.n, name)
+        a.d['t'].sym = name
+        arrs.append(a)
+    rhs = m.new_arr2(m.n, 'rhs', sym='rhs')
+    try:
+        it.call_def(b['def'], [k] + arrs + [rhs])
+        return None
+    except (Unsupported, Diverge) as ex:
+        return ex
+
+
 def check_thomas(chk, lib, rule):
     b = lib.body(THOMAS)
     if not chk.require(b is not None, rule, 'anchor-thomas', THOMAS, "the tridiagonal solver called by solve_for_k exists"):
